@@ -346,9 +346,12 @@ impl RoutePattern {
             } = right;
 
             for (left, right) in segs_left.iter().zip(segs_right.iter()) {
+                // Literal segments are matched by their percent-decoded form so must be compared
+                // in that form here ("/%41" and "/A" accept the same routes).
                 if !left.parameter
                     && !right.parameter
-                    && left.segment_str(pat_left.as_str()) != right.segment_str(pat_right.as_str())
+                    && !percent_decode_str(left.segment_str(pat_left.as_str()))
+                        .eq(percent_decode_str(right.segment_str(pat_right.as_str())))
                 {
                     return false;
                 }
